@@ -42,11 +42,11 @@ def address_shapes(tier, wide):
     if tier == "quick":
         if wide:
             return {"off": (list(range(16)), [0, 128]),
-                    "arr": (list(range(16)), [1, 9, 13], [2], [0]),
+                    "arr": (list(range(16)), [9, 13], [2], [0]),
                     "idx": ([9], [8], [0]),
                     "rip": [128]}
         return {"off": (list(range(16)), [0, 1, 128, I32MIN]),
-                "arr": (list(range(16)), NOT_RSP, [4], [0]),
+                "arr": (list(range(16)), [1, 5, 9, 12, 13], [4], [0]),
                 "idx": (NOT_RSP, [8], [0]),
                 "rip": [128]}
     full = [0, 1, 128, I32MIN]
@@ -133,35 +133,27 @@ def render(tmpl, values, conds, direct, disp=None):
     return x64_spec.PLACEHOLDER.sub(sub, tmpl)
 
 
-def meta_of(kinds, args, values, conds):
-    out = []
-    for i, (an, ty) in enumerate(args):
-        k = kinds[i]
-        if k in ("lbl", "rel"):
-            continue
-        v = values[i]
-        if ty == "Register":
-            out.append("r%d" % v)
-        elif ty == "XmmRegister":
-            out.append("x%d" % v)
-        elif ty == "Address":
-            out.append(addr_meta(v))
-        elif ty == "Immediate":
-            out.append("imm(%d)" % v)
-        elif ty == "Condition":
-            out.append("cc=%s" % conds[v])
-        elif ty == "u8":
-            out.append("mode(%d)" % v)
-        else:
-            out.append("rel(%d)" % v)
-    return " ".join(out)
+def meta_one(ty, v, conds):
+    if ty == "Register":
+        return "r%d" % v
+    if ty == "XmmRegister":
+        return "x%d" % v
+    if ty == "Address":
+        return addr_meta(v)
+    if ty == "Immediate":
+        return "imm(%d)" % v
+    if ty == "Condition":
+        return "cc=%s" % conds[v]
+    if ty == "u8":
+        return "mode(%d)" % v
+    return "rel(%d)" % v
 
 
 # ---- label scenarios -------------------------------------------------------------------------------
-def scenario_list(short_only):
+def scenario_list(short_only, pads):
     """[(scen, pad)] in enumeration order; for rel8-only methods only the scenarios whose targets fit."""
     out = []
-    for pad in PADS:
+    for pad in pads:
         for scen in range(3):
             if short_only:
                 if scen == 0 and pad + 2 > 128:
@@ -199,6 +191,10 @@ use package::assembler::{Register, FloatRegister, Label};
 class St {
     n: Int64,
     start: Int64,
+    batch: Int64,
+    asm: AssemblerX64,
+    avx: Bool,
+    ends: Vec[Int64],
 }
 
 impl St {
@@ -206,14 +202,43 @@ impl St {
         self.n = self.n + 1;
         self.n > self.start
     }
-}
 
-fn out(code: Array[UInt8]) {
-    let sb = StringBuffer::new();
-    for b in code {
-        sb.append("${b.to_int32()} ");
+    // one assembler is shared by a batch of cases; the bytes of a case are those between two positions
+    fn begin(avx: Bool) {
+        self.avx = avx;
+        self.asm = AssemblerX64::new(avx);
+        self.ends.clear();
     }
-    println(sb.to_string());
+
+    fn done() {
+        self.ends.push(self.asm.size());
+        if self.ends.size() >= self.batch {
+            self.flush();
+        }
+    }
+
+    fn flush() {
+        if self.ends.size() > 0 {
+            let code = self.asm.finalize();
+            let sb = StringBuffer::new();
+            let digits = "0123456789abcdef";
+            let mut from = 0;
+            for to in self.ends {
+                let mut p = from;
+                while p < to {
+                    let v = code(p).to_int64();
+                    sb.append_char(digits.get_byte(v >> 4).to_char());
+                    sb.append_char(digits.get_byte(v & 15).to_char());
+                    p = p + 1;
+                }
+                sb.append_char('\n');
+                from = to;
+            }
+            print(sb.to_string());
+        }
+        self.asm = AssemblerX64::new(self.avx);
+        self.ends.clear();
+    }
 }
 
 fn out_label(code: Array[UInt8], target: Int64, ranges: Vec[Int64]) {
@@ -319,10 +344,17 @@ class Method:
             elif ty == "Condition":
                 self.domains[i] = list(range(len(conds)))
             elif ty == "u8":
-                self.domains[i] = MODES
+                self.domains[i] = [0, 1, 2, 3, 15, 255] if tier == "quick" else MODES
             elif ty == "i32":
                 self.domains[i] = REL32
-        self.scens = scenario_list(name in x64_spec.SHORT_ONLY) if self.label_idx else None
+        self.scens = None
+        if self.label_idx:
+            n = 1
+            for i in self.plain:
+                n *= len(self.domains[i])
+            # 64 KiB of padding is slow in cannon-compiled code: quick uses it only for small operand products
+            pads = [q for q in PADS if q < 65536] if (tier == "quick" and n > 32) else PADS
+            self.scens = scenario_list(name in x64_spec.SHORT_ONLY, pads)
 
     def tuples_per_mode(self):
         n = 1
@@ -335,21 +367,49 @@ class Method:
     def total(self):
         return self.tuples_per_mode() * len(self.modes)
 
+    def _prepare(self):
+        """pre-render text and meta of every domain value; split the template into literal pieces"""
+        conds = self.conds
+        self.pieces = []          # literal text or (position in plain) or "disp"
+        pos = 0
+        order = {i: n for n, i in enumerate(self.plain)}
+        for mm in x64_spec.PLACEHOLDER.finditer(self.tmpl):
+            if mm.start() > pos:
+                self.pieces.append(self.tmpl[pos:mm.start()])
+            idx = int(mm.group(1))
+            self.pieces.append(order[idx] if idx in order else "disp")
+            pos = mm.end()
+        if pos < len(self.tmpl):
+            self.pieces.append(self.tmpl[pos:])
+        self.rendered = []
+        for i in self.plain:
+            kind = self.kinds[i]
+            texts = []
+            for v in self.domains[i]:
+                t = render("{%d:%s}" % (i, kind), {i: v}, conds, self.direct)
+                mt = meta_one(self.args[i][1], v, conds)
+                texts.append((t, mt))
+            self.rendered.append(texts)
+
     def enumerate(self):
-        """yields (avx, values dict, scenario or None) in the order of the generated dora loops"""
-        doms = [self.domains[i] for i in self.plain]
+        """yields (avx, expected text (or template pieces for label methods), meta, scenario or None) in the order
+        of the generated dora loops"""
+        self._prepare()
+        lbl_kind = self.kinds[self.label_idx[0]] if self.label_idx else None
         for avx in self.modes:
-            for combo in itertools.product(*doms):
-                values = dict(zip(self.plain, combo))
+            for combo in itertools.product(*self.rendered):
+                meta = " ".join(c[1] for c in combo)
                 if self.scens is None:
-                    yield avx, values, None
+                    yield avx, "".join(p if isinstance(p, str) else combo[p][0] for p in self.pieces), meta, None
                 else:
+                    parts = [p if (isinstance(p, str) and p != "disp") else (None if p == "disp" else combo[p][0])
+                             for p in self.pieces]
                     for sp in self.scens:
-                        yield avx, values, sp
+                        yield avx, (parts, lbl_kind), meta, sp
 
     # -- dora code --
     def dora_fn(self):
-        L = ["fn m_%s(st: St, avx: Bool) {" % self.name]
+        L = ["fn m_%s(st: St, avx: Bool) {" % self.name, "    st.begin(avx);"]
         ind = "    "
         call = []
         for i, (an, ty) in enumerate(self.args):
@@ -382,9 +442,8 @@ class Method:
         callx = "asm.%s(%s);" % (self.name, ", ".join(call))
         if self.scens is None:
             L += [ind + "if st.take() {",
-                  ind + "    let asm = AssemblerX64::new(avx);",
-                  ind + "    " + callx,
-                  ind + "    out(asm.finalize());",
+                  ind + "    st." + callx,
+                  ind + "    st.done();",
                   ind + "}"]
         else:
             pairs = ", ".join("(%d, %d)" % sp for sp in self.scens)
@@ -426,7 +485,7 @@ class Method:
         for _ in self.plain:
             ind = ind[:-4]
             L.append(ind + "}")
-        L += ["}", ""]
+        L += ["    st.flush();", "}", ""]
         return L
 
 
@@ -445,9 +504,11 @@ def gen_driver(methods, groups, conds, tier):
                 L.append("    m_%s(st, %s);" % (m.name, "true" if avx else "false"))
         L += ["}", ""]
     L += ["@Test", "fn verif_c07() {",
-          "    if std::argc() < 2i32 { return; }",
+          "    if std::argc() < 3i32 { return; }",
           "    let g = std::argv(0i32).to_int64().get_or_panic();",
-          "    let st = St(n = 0, start = std::argv(1i32).to_int64().get_or_panic());",
+          "    let st = St(n = 0, start = std::argv(1i32).to_int64().get_or_panic(),",
+          "        batch = std::argv(2i32).to_int64().get_or_panic(), asm = AssemblerX64::new(false), avx = false,",
+          "        ends = Vec[Int64]::new());",
           '    println("");', '    println("C07BEGIN");']
     for g in range(len(groups)):
         L.append("    if g == %d { group_%d(st); }" % (g, g))
@@ -460,16 +521,22 @@ _GROUPS = None   # set before the pool forks: [[Method]]
 _CONDS = None
 
 
+BATCH = 4000
+
+
 def _run_group_binary(args):
-    """run group g of the twin binary, restarting behind refused tuples"""
+    """run group g of the twin binary.  Cases are printed in batches; when the process aborts (a Dora assert) the
+    refused tuple is pinpointed by re-running from the last printed tuple with batch size 1, recorded, and the
+    run continues behind it."""
     binary, g, total, segments, outdir = args
-    lines = []          # output line per executed tuple index (None = refused)
+    lines = []          # output line per tuple index (None = refused)
     start = 0
+    batch = BATCH
     refused = []
     restarts = 0
-    while True:
-        p = subprocess.run([binary, str(g), str(start)], stdout=subprocess.PIPE, stderr=subprocess.PIPE,
-                           env=dict(os.environ, DORA_FLAGS=""))
+    while start < total:
+        p = subprocess.run([binary, str(g), str(start), str(batch)], stdout=subprocess.PIPE, stderr=subprocess.PIPE,
+                           env=dict(os.environ, DORA_FLAGS="--gc-worker 1"))
         out = p.stdout.decode("utf-8", "replace")
         pos = out.find("\nC07BEGIN\n")
         if pos < 0:
@@ -478,33 +545,34 @@ def _run_group_binary(args):
         body = out[pos + 10:].split("\n")
         done = False
         got = []
-        for l in body:
+        for l in body[:-1]:
             if l.startswith("C07END"):
                 done = True
                 break
-            if l:
-                got.append(l)
-        if done:
-            lines.extend(got)
-            break
-        # aborted: a complete line per finished tuple; the last line may be partial only if the process died mid-write
+            got.append(l)
         lines.extend(got)
-        msg = p.stderr.decode("utf-8", "replace")[-300:].strip()
+        if done:
+            break
+        if batch != 1:
+            start = len(lines)
+            batch = 1
+            continue
+        msg = "exit %d: %s" % (p.returncode, " | ".join(
+            l.strip() for l in p.stderr.decode("utf-8", "replace").strip().split("\n")[:2]))
         seg = [s for s in segments if s[0] == len(lines)]
         if seg:
             # the very first tuple of a (method, has_avx2) enumeration is refused: the setting is refused
-            refused.append((len(lines), "whole has_avx2 setting refused: " + msg))
+            refused.append((len(lines), "whole has_avx2 setting refused, " + msg))
             lines.extend([None] * (seg[0][1] - seg[0][0]))
         else:
             refused.append((len(lines), msg))
             lines.append(None)
         start = len(lines)
+        batch = BATCH
         restarts += 1
         if restarts > MAX_RESTARTS:
             return {"g": g, "error": "more than %d refusals in group %d, first at tuple %d: %s" % (
                 MAX_RESTARTS, g, refused[0][0], refused[0][1])}
-        if start >= total:
-            break
     if len(lines) != total:
         return {"g": g, "error": "group %d printed %d tuples, %d enumerated" % (g, len(lines), total)}
     return {"g": g, "lines": lines, "refused": refused, "error": None}
@@ -513,43 +581,48 @@ def _run_group_binary(args):
 def _run_group(args):
     """Worker: run the binary for one group, attach the requested text to every tuple (same enumeration order as
     the generated dora loops), write the shards and compare them with llvm-mc."""
+    import time
+    t0 = time.time()
     res = _run_group_binary(args)
     if res["error"]:
         return res
+    t_bin = time.time() - t0
     binary, g, total, segments, outdir = args
     conds = _CONDS
     lines = res["lines"]
     refused_at = dict(res["refused"])
     out = {"g": g, "error": None, "cases": 0, "encoded": 0, "nontrivial": 0, "refusals": [], "per_method": {},
-           "clobbers": {}, "shards": []}
+           "clobbers": {}, "crashes": {}, "shards": [], "t_bin": t_bin}
     std_hex, std_s, dir_hex, dir_exp = [], [], [], []
     idx = 0
     for m in _GROUPS[g]:
         pm = out["per_method"].setdefault(m.name, {"cases": 0, "encoded": 0, "refused": 0,
                                                    "has_avx2_settings": [int(a) for a in m.modes]})
         base = None
-        for avx, values, sp in m.enumerate():
+        for avx, exp0, meta0, sp in m.enumerate():
             line = lines[idx]
             here = idx
             idx += 1
             ncase = 1 if sp is None else (3 if sp[0] == 2 else 1)
             pm["cases"] += ncase
             out["cases"] += ncase
-            meta0 = meta_of(m.kinds, m.args, values, conds)
             if line is None:
                 pm["refused"] += ncase
                 if here in refused_at:
-                    out["refusals"].append("%s has_avx2=%d %s %s: %s" % (
-                        m.name, avx, meta0, sp or "", " ".join(refused_at[here].split())[-160:]))
+                    note = "%s has_avx2=%d %s %s: %s" % (m.name, avx, meta0, sp or "", refused_at[here][:300])
+                    out["refusals"].append(note)
+                    if "exit 102:" not in refused_at[here]:
+                        # not an assert: the assembler crashed on these operands
+                        out["crashes"].setdefault(m.name, []).append(note)
                 continue
             if sp is None:
-                cases = [(line.split(), None, "")]
+                cases = [(bytes.fromhex(line), None, "")]
             else:
                 head, _, tail = line.partition(" :")
                 h = head.split()
                 target, clean, k = int(h[1]), int(h[2]), int(h[3])
                 rng = [(int(h[4 + 2 * j]), int(h[5 + 2 * j])) for j in range(k)]
-                nums_all = tail.split()
+                nums_all = bytes(int(x) for x in tail.split())
                 if not clean:
                     out["clobbers"].setdefault(m.name, []).append("avx=%d %s scen=%s pad=%d" % (
                         avx, meta0, ["back", "fwd", "multi"][sp[0]], sp[1]))
@@ -563,12 +636,16 @@ def _run_group(args):
             for nums, disp, extra in cases:
                 pm["encoded"] += 1
                 out["encoded"] += 1
-                key = tuple(nums)
+                key = bytes(nums)
                 if base is None:
                     base = key
                 elif key != base:
                     out["nontrivial"] += 1
-                exp = render(m.tmpl, values, conds, m.direct, disp)
+                if sp is None:
+                    exp = exp0
+                else:
+                    dtext = str(disp) if exp0[1] == "rel" else "[rip%s]" % _disp(disp)
+                    exp = "".join(dtext if q is None else q for q in exp0[0])
                 meta = "%s avx=%d %s%s" % (m.name, avx, meta0, extra)
                 if m.direct:
                     dir_hex.append(_hexline(nums))
@@ -576,6 +653,7 @@ def _run_group(args):
                 else:
                     std_hex.append(_hexline(nums))
                     std_s.append("%s ; ud2 # %s\n" % (exp, meta))
+    out["t_enum"] = time.time() - t0 - t_bin
     for kind, hx, tx, ext in (("std", std_hex, std_s, ".s"), ("direct", dir_hex, dir_exp, ".exp")):
         for k in range(0, len(hx), 100000):
             basep = os.path.join(outdir, "%s%03d_%03d" % (kind[0], g, k // 100000))
@@ -588,11 +666,15 @@ def _run_group(args):
                 out["error"] = "llvm-mc pipeline: " + r["error"]
                 return out
             out["shards"].append(r)
+    out["t_llvm"] = time.time() - t0 - t_bin - out["t_enum"]
     return out
 
 
+_HEXTOK = ["0x%02x" % i for i in range(256)]
+
+
 def _hexline(nums):
-    return "[" + " ".join("0x%02x" % int(x) for x in nums) + "] [0x0f 0x0b]\n"
+    return "[" + " ".join([_HEXTOK[b] for b in nums]) + "] [0x0f 0x0b]\n"
 
 
 def run(c, tier, scratch, only=None, rust_summary=None):
@@ -628,7 +710,7 @@ def run(c, tier, scratch, only=None, rust_summary=None):
     if not methods:
         return {"cases": 0, "nontrivial": 0, "samples": [], "coverage": {"methods_covered": 0, "skipped": skipped}}
     # groups: greedy bin packing by tuple count
-    ngroups = max(1, min(len(methods), 3 * vcommon.NCPU))
+    ngroups = max(1, min(len(methods), max(2, vcommon.NCPU - 2)))
     bins = [[0, []] for _ in range(ngroups)]
     for m in sorted(methods, key=lambda m: -m.total()):
         b = min(bins, key=lambda b: b[0])
@@ -643,6 +725,16 @@ def run(c, tier, scratch, only=None, rust_summary=None):
     if not re.search(r"^pub mod x64;$", text, re.M):
         raise vcommon.MachineryError("cannot find `pub mod x64;` in assembler.dora")
     open(asm_file, "w").write(re.sub(r"^pub mod x64;$", "pub mod x64;\nmod verif_driver;", text, count=1, flags=re.M))
+    # the package's own unit tests are not part of this check (and one failing would abort the binary before the
+    # driver runs): drop their @Test annotation in the scratch copy
+    for d, _, files in os.walk(pkg):
+        for fn in files:
+            if fn.endswith(".dora"):
+                fp = os.path.join(d, fn)
+                t = open(fp).read()
+                t2 = re.sub(r"^(\s*)@Test\s*$", r"\1", t, flags=re.M)
+                if t2 != t:
+                    open(fp, "w").write(t2)
     open(os.path.join(pkg, "assembler", "verif_driver.dora"), "w").write(gen_driver(methods, groups, conds, tier))
     import time
     t0 = time.time()
@@ -680,10 +772,15 @@ def run(c, tier, scratch, only=None, rust_summary=None):
     samples = []
     per_method = {}
     clobbers = {}
+    crashes = {}
+    tsum, tmax = {}, {}
     with multiprocessing.Pool(workers) as pool:
         for res in pool.imap_unordered(_run_group, jobs):
             if res["error"]:
                 raise vcommon.MachineryError("dora twin: " + res["error"])
+            for k in ("t_bin", "t_enum", "t_llvm"):
+                tsum[k] = tsum.get(k, 0.0) + res[k]
+                tmax[k] = max(tmax.get(k, 0.0), res[k])
             total_cases += res["cases"]
             encoded += res["encoded"]
             nontrivial += res["nontrivial"]
@@ -691,6 +788,8 @@ def run(c, tier, scratch, only=None, rust_summary=None):
             per_method.update(res["per_method"])
             for k, v in res["clobbers"].items():
                 clobbers.setdefault(k, []).extend(v)
+            for k, v in res["crashes"].items():
+                crashes.setdefault(k, []).extend(v)
             for r in res["shards"]:
                 normalized += r["normalized"]
                 samples.extend(r["samples"])
@@ -699,7 +798,8 @@ def run(c, tier, scratch, only=None, rust_summary=None):
                     cg = coll_groups.setdefault(key, {"count": 0, "examples": []})
                     cg["count"] += grp["count"]
                     cg["examples"] = sorted(cg["examples"] + grp["examples"], key=pipeline.case_weight)[:6]
-    vcommon.log("c07 twin: compared in %.1fs" % (time.time() - t0))
+    vcommon.log("c07 twin: compared in %.1fs (worker seconds, sum/max: %s)" % (time.time() - t0, ", ".join(
+        "%s %.1f/%.1f" % (k[2:], tsum[k], tmax[k]) for k in sorted(tsum))))
     for key in sorted(coll_groups):
         grp = coll_groups[key]
         ex = grp["examples"][0]
@@ -712,6 +812,10 @@ def run(c, tier, scratch, only=None, rust_summary=None):
         c.violation("c07:dora:%s:label-fixup-clobbers" % name,
                     "x64.dora %s: resolving the label wrote outside the instruction in %d scenarios: %s"
                     % (name, len(notes), "; ".join(notes[:3])), {"method": name, "tier": tier, "notes": notes[:20]})
+    for name, notes in sorted(crashes.items()):
+        c.violation("c07:dora:%s:crash" % name,
+                    "x64.dora %s: the process died (not an assert) on %d operand tuples: %s"
+                    % (name, len(notes), "; ".join(notes[:2])), {"method": name, "tier": tier, "notes": notes[:20]})
     samples = sorted(samples, key=lambda s: (s["method"], s["operands"]))
     for s in samples:
         s["assembler"] = "x64.dora"
@@ -729,8 +833,9 @@ def run(c, tier, scratch, only=None, rust_summary=None):
         "groups": len(groups),
         "per_method": per_method,
         "rule": "same products as the Rust side with reduced address sub-domains (" + (
-            "2-operand: offset 16x{0,1,128,-2^31}, array 16x15x{4}x{0}, index 15x{8}x{0}, rip {128}; "
-            ">=3 operands: offset 16x{0,128}, array 16x{rcx,r9,r13}x{2}x{0}, index {r9}x{8}x{0}, rip {128}"
+            "2-operand: offset 16x{0,1,128,-2^31}, array 16x{rcx,rbp,r9,r12,r13}x{4}x{0}, index 15x{8}x{0}, rip {128}; "
+            ">=3 operands: offset 16x{0,128}, array 16x{r9,r13}x{2}x{0}, index {r9}x{8}x{0}, rip {128}; "
+            "rounding immediates {0,1,2,3,15,255}; 65536-byte label padding only for methods with <= 32 operand tuples"
             if tier == "quick" else
             "2-operand: offset/array/index/rip with all 16 bases, 15 indexes, 4 scales, d in {0,1,128,-2^31}; "
             ">=3 operands: array scale {1,8} x d {0,128}") +
